@@ -697,7 +697,12 @@ func doConc(req *request) (resp response) {
 		c := caches[i]
 		fns = append(fns, func() {
 			cs := &clientState{}
-			for _, o := range ops {
+			for k, o := range ops {
+				if k > 0 {
+					// the start of a call is a scheduling point of its own: a call that performs no file
+					// operation (an answer from memory) is placed by the schedule like any other
+					ctlYield()
+				}
 				st := ctlCount()
 				r := runClientOp(c, o, cs)
 				results[i] = append(results[i], r)
